@@ -5,7 +5,7 @@ CONSTANTS
   InitRestated = TRUE
   OriginFromSuper = FALSE
   AllowModifyBusy = FALSE
-  SigCheck = FALSE
+  SigCheck = TRUE
   Parent <- Chain3
   Mode = "methq"
   QSels = {{3}}
